@@ -212,7 +212,11 @@ pub struct HostileCase { pub hash_seed: u64, pub setup: Vec<UStep>, pub reqs: Ve
 pub struct C17;
 pub const ENTRIES: [&str; 10] = ["execute_sparql_query", "execute_query_rayon_parallel2_volcano(SELECT)", "execute_sparql_update", "SparqlDatabase::execute_update", "SparqlDatabase::handle_update", "handle_http_request(GET query=)", "handle_http_request(POST application/sparql-query)", "handle_http_request(POST form query=)", "handle_http_request(POST form update=)", "handle_http_request(POST application/sparql-update)"];
 
-const SELECTS: [&str; 8] = [
+const SELECTS: [&str; 12] = [
+    "SELECT ?s FROM <http://e/g0> WHERE { ?s ?p ?o }",
+    "SELECT ?s ?g FROM NAMED <http://e/g5> WHERE { GRAPH ?g { ?s ?p ?o } }",
+    "SELECT ?s FROM <http://e/gnone> FROM NAMED <http://e/g1> FROM NAMED <http://e/gabsent> WHERE { { ?s ?p ?o } UNION { GRAPH <http://e/gabsent> { ?s ?p ?o } } }",
+    "SELECT ?g WHERE { GRAPH ?g { } }",
     "SELECT * WHERE { ?s ?p ?o }",
     "SELECT ?s WHERE { ?s <http://e/p0> ?o . ?o <http://e/p1> ?x }",
     "SELECT ?s ?o WHERE { GRAPH ?g { ?s <http://e/p0> ?o } }",
